@@ -176,6 +176,23 @@ def refute(tier, seed, emit):
                 emit.violation('stat-is-func-of-exactly-the-labelled-samples', w, msg)
         if emit.full:
             return
+    # arbitrary (also non-contiguous / interleaved) labellings
+    ml2 = 5 if tier == 'quick' else 7
+    emit.scope('every label vector of length <= %d over {-1,0,1,2} in which the labels 0..K-1 all occur (non-contiguous and interleaved labellings included) x reducers {len, sum, lambda-first-plus-last}' % ml2, exhaustive=True)
+    for n in range(1, ml2 + 1):
+        for cv in itertools.product((-1, 0, 1, 2), repeat=n):
+            K = max(cv) + 1
+            if K == 0 or any(k not in cv for k in range(K)):
+                continue
+            vals = [((7 * i + 3) % 5) + 0.25 * i for i in range(n)]
+            for fn in ('len', 'sum', 'lambda-first-plus-last'):
+                emit.case(('any', cv, fn), nontrivial=True, contract='get_cycle_stat')
+                w = {'kind': 'cycle_stat', 'cv': list(cv), 'vals': vals, 'func': fn}
+                ok, msg = replay(w)
+                if ok:
+                    emit.violation('stat-is-func-of-exactly-the-labelled-samples:any-labelling', w, msg)
+        if emit.full:
+            return
     r = rng(seed, 14)
     # phase alignment
     nps = [2, 3, 8, 48, 64] if tier == 'quick' else [2, 3, 4, 5, 8, 13, 24, 48, 64]
